@@ -8,6 +8,8 @@ Model (JSON):
             "how": "name" | "pathstr" | "pathobj" | "initfile" | "syspath" | "nosearch",
             "target": "top" | "dotted" | "missing",
             "pth": bool,               # a site-style .pth file with an `import <top>` line in the search root
+            "via": "load" | "git",     # (static) git: the tree is committed and loaded with griffe.load_git(ref="HEAD")
+            "op": "load" | "inspect" | "inspect_paths", "inspect_at": int,   # (fault) griffe.inspect(name, filepath=..) without/with import_paths
             "fault": None | {"at": int, "type": "exc" | "exit" | "dep"}}   # only kind == "fault"
     pkg  = {"layout": "pkg" | "mod" | "ns" | "pyc" | "so",   # regular package / single module / PEP 420 namespace dir /
                                                              # source-less name.pyc (importable, invisible to the finder) /
@@ -246,6 +248,7 @@ def strategy():
             "how": hows,
             "target": targets,
             "pth": st.sampled_from([False, False, True]),
+            "via": st.sampled_from(["load"] * 5 + ["git"]),  # git: commit the tree, load it with griffe.load_git(ref="HEAD")
         }
     )
     fault = st.fixed_dictionaries(
@@ -257,6 +260,8 @@ def strategy():
             "how": st.sampled_from(["name", "name", "pathstr", "syspath", "initfile"]),
             "target": targets,
             "pth": st.just(False),
+            "op": st.sampled_from(["load", "load", "load", "inspect", "inspect", "inspect_paths"]),  # inspect: griffe.inspect(name, filepath=...)
+            "inspect_at": st.integers(0, 11),
             "fault": st.one_of(
                 st.none(),
                 st.fixed_dictionaries({"at": st.integers(0, 11), "type": st.sampled_from(["exc", "exit", "dep"])}),
